@@ -286,7 +286,8 @@ Proof.
   { intros y. rewrite E1, E, !in_app_iff. cbn. intuition. }
   constructor.
   - intros loc Hl. apply Hin in Hl. destruct Hl as [->|Hl]; [unfold cur_off in *; lia|]. destruct (bw_range _ W loc Hl). lia.
-  - intros a b Ha Hb. apply Hin in Ha. apply Hin in Hb. destruct Ha as [->|Ha], Hb as [->|Hb]; auto.
+  - intros a b Ha Hb. apply Hin in Ha. apply Hin in Hb. destruct Ha as [->|Ha], Hb as [->|Hb].
+    + left; reflexivity.
     + right. right. apply Hs. exact Hb.
     + right. left. apply Hs. exact Ha.
     + apply (bw_sep _ W); auto.
